@@ -793,9 +793,15 @@ pub fn rln_witness_to_bigint_json(rln_witness: &RLNWitnessInput) -> Result<serde
 }
 
 pub fn message_id_range_check(message_id: &Fr, user_message_limit: &Fr) -> Result<()> {
-    if message_id > user_message_limit {
+    // The circuit enforces message_id < user_message_limit on LIMIT_BIT_SIZE = 16 bit values
+    if message_id >= user_message_limit {
         return Err(color_eyre::Report::msg(
             "message_id is not within user_message_limit",
+        ));
+    }
+    if user_message_limit > &Fr::from(1u64 << 16) {
+        return Err(color_eyre::Report::msg(
+            "user_message_limit exceeds the circuit's 16 bit range",
         ));
     }
     Ok(())
